@@ -176,6 +176,11 @@ def random_case(rng: random.Random, max_spans: int = 30) -> tuple[dict, str, boo
             parents.append(rng.randrange(i))
     base = rng.choice([0, 10**9, 1_700_000_000 * 10**9, 4_000_000_000 * 10**9])
     unit = rng.choice([1, 1000, 1000, 10**6])
+    if rng.random() < 0.15:
+        # end times in the last microsecond before a whole second (formatting must carry)
+        base = rng.choice([1_723_544_132, 1_700_000_000, 59, 4_102_444_799]) * 10**9 \
+            + 999_999_000 + rng.choice([0, 400, 499, 500, 501, 880, 990])
+        unit = rng.choice([1, 1, 10])
     spans: dict[str, dict] = {}
     for i in range(n):
         spans[f"e{i}"] = {"id": f"e{i}", "type": rng.choice(alphabet), "start": 0, "end": 0,
